@@ -241,3 +241,111 @@ func HarnessC08BlockingCancel() {
 	zzverif.Assert(zzverif.NumParked() == 0, "C08 background goroutines are still alive after shutdown: "+zzverif.ParkedDesc())
 	zzverif.Reached("c08-blocking-cancel-end")
 }
+
+// HarnessC08TwoWatchers: two watching sources finish in either order (also concurrently); the
+// source that is still watching keeps working after the first Done, and after the second one the
+// background goroutines are gone.
+func HarnessC08TwoWatchers() {
+	verifyLog = nil
+	def := hcfg{}
+	s0 := &hwsrc{hsrc{name: "s0", init: hval{setA: true, a: 0}}}
+	s1 := &hwsrc{hsrc{name: "s1", init: hval{setB: true, b: 0}}}
+	ctx, cancel := context.WithCancel(context.Background())
+	defer cancel()
+	d, err := Config(ctx, &def, s0, s1)
+	if err != nil {
+		zzverif.Fail("C04 Config failed on a valid stack")
+		return
+	}
+	srcs := []*hwsrc{s0, s1}
+	first := zzverif.Choose("firstDone", 2)
+	if zzverif.Choose("concurrent", 2) == 1 {
+		done := make(chan struct{})
+		go func() {
+			defer close(done)
+			srcs[first].wa.Done(ctx)
+		}()
+		srcs[1-first].wa.Done(ctx)
+		<-done
+	} else {
+		srcs[first].wa.Done(ctx)
+		zzverif.Quiesce()
+		// the other watcher is still live
+		other := srcs[1-first]
+		v := hval{setA: true, a: 7}
+		if first == 0 {
+			v = hval{setB: true, b: 7}
+		}
+		e := other.wa.BlockingReportNewValue(ctx, mkValue(other.t, v))
+		zzverif.Assert(e == nil, "C08 a report from the watcher that is still live failed after another watcher was done")
+		got := d.View()
+		zzverif.Assert((first == 0 && got.B == 7) || (first == 1 && got.A == 7), "C08 after one watcher finished the other's update was not installed")
+		other.wa.Done(ctx)
+	}
+	zzverif.Quiesce()
+	zzverif.Assert(zzverif.NumParked() == 0, "C08 background goroutines are still alive after every watcher called Done: "+zzverif.ParkedDesc())
+	lctx, lcancel := context.WithCancel(context.Background())
+	go func() { lcancel() }()
+	e := s0.wa.ReportNewValue(lctx, mkValue(s0.t, hval{setA: true, a: 9}))
+	zzverif.Assert(e != nil, "C08 a report after every watcher was done claimed success")
+	zzverif.Reached("c08-two-watchers-end")
+}
+
+// HarnessC08PendingUnregister: an unregistration is pending (optionally behind a callback that
+// blocks forever) when the library shuts down; the unregister call returns at the latest when
+// its own context ends, and the monitor is gone afterwards.
+func HarnessC08PendingUnregister() {
+	verifyLog = nil
+	def := hcfg{}
+	src := &hwsrc{hsrc{name: "s0", init: hval{setA: true, a: 0}}}
+	ctx, cancel := context.WithCancel(context.Background())
+	defer cancel()
+	d, err := Config(ctx, &def, src)
+	if err != nil {
+		zzverif.Fail("C04 Config failed on a valid stack")
+		return
+	}
+	_, ser := d.ViewVersion()
+	stuck := zzverif.Choose("stuckCallback", 2) == 1
+	block := make(chan struct{})
+	if stuck {
+		u0 := d.RegisterCallback(ctx, ser, func(context.Context, *hcfg, *hcfg) {
+			zzverif.Daemon()
+			<-block
+		})
+		zzverif.Assert(u0 != nil, "C08 RegisterCallback returned nil with a live context")
+	}
+	u := d.RegisterCallback(ctx, ser, func(context.Context, *hcfg, *hcfg) {})
+	zzverif.Assert(u != nil, "C08 RegisterCallback returned nil with a live context")
+	if u == nil {
+		return
+	}
+	if stuck {
+		e := src.wa.BlockingReportNewValue(ctx, mkValue(src.t, hval{setA: true, a: 1}))
+		zzverif.Assert(e == nil && d.View().A == 1, "C08 a report failed while a callback is blocked")
+	}
+	// the unregister call's context ends only once nothing else can move
+	uctx, ucancel := context.WithCancel(context.Background())
+	go func() {
+		zzverif.Daemon()
+		zzverif.Quiesce()
+		ucancel()
+	}()
+	returned := make(chan struct{})
+	go func() {
+		defer close(returned)
+		_ = u(uctx)
+	}()
+	if zzverif.Choose("shutdown", 2) == 1 {
+		src.wa.Done(ctx)
+	} else {
+		cancel()
+	}
+	<-returned
+	_ = u(uctx) // and once more after shutdown
+	zzverif.Quiesce()
+	if !stuck {
+		zzverif.Assert(zzverif.NumParked() == 0, "C08 background goroutines are still alive after shutdown: "+zzverif.ParkedDesc())
+	}
+	zzverif.Reached("c08-pending-unreg-end")
+}
